@@ -37,6 +37,7 @@ Feats(hA, hB, ev) ==
   \cup (IF \E i \in DOMAIN hA.suites : IsGrease16(hA.suites[i]) THEN {"grease-suite"} ELSE {})
   \cup (IF HasExtT(hA, 51) THEN {"key-share"} ELSE {})
   \cup (IF HasExtT(hA, 65037) THEN {"ech"} ELSE {})
+  \cup (IF HasExtT(hA, 65037) /\ ECHOuterOK(ExtBody(hA, 65037)) /\ RdU16(ExtBody(hA, 65037), 7) # 32 THEN {"ech-enc-not-32"} ELSE {})
   \cup (IF HasExtT(hA, 41) THEN {"psk"} ELSE {})
   \cup (IF HasExtT(hA, 41) /\ Len(ev.b) > 0 /\ ~HasExtT(hB, 41) THEN {"psk-dropped"} ELSE {})
   \cup (IF HasExtT(hA, 35) /\ Len(ExtBody(hA, 35)) > 0 THEN {"ticket"} ELSE {})
